@@ -120,7 +120,7 @@ def private_helpers_of(allowed, candidates, sites):
     return ok
 
 
-@task("census:writers", props=["C01", "C02", "C03", "C04", "C05", "C06", "C08", "C09", "C13", "C16"], functions=[], replay=None)
+@task("census:writers", props=["C01", "C02", "C03", "C04", "C05", "C06", "C08", "C09", "C13", "C16"], functions=[], replay="market_ops")
 def t_census():
     src = get_src()
     found = writers_of(src)
